@@ -89,15 +89,15 @@ func defFor(check string) *checkDef {
 	case "C12big":
 		d := defFor("C12")
 		return d
-	case "C04mem":
+	case "C04mem", "C04bulk":
 		return defFor("C04")
 	case "C04":
 		return &checkDef{property: "C04", level: "exploration",
-			variants: []string{"C04", "C04", "C04", "C04mem"},
+			variants: []string{"C04", "C04", "C04bulk", "C04mem"},
 			budget: map[string]tierCfg{"quick": {2500, 75}, "thorough": {100000, 1500}},
-			rule:   "one simulated run per seed (three in four on the file-system directory, one in four on the in-memory directory): 1-3 client actors hold up to three Readers of different ages open while batches, in-memory merges, file merges, persist swaps, clean-ups (unlinks) and writer Close are scheduled between their reads; the first full read of a reader (count, match-all with stored fields, lookup by id, sorted top-N over document values, aggregations, dictionary scan, phrase/boolean/conjunction/disjunction/range/prefix queries, scored nested booleans, and 6-11 queries generated per run from all public query types, with scores) is its baseline, checked against the abstract index at acquisition; right after acquisition, while the reader is still the writer's current root, the same reads are repeated twice in rotated order and must agree (answers must not depend on search history); every later read, again in another order, must be identical; in one run of four the writer is closed at an arbitrary moment (while merges and persists are in progress) instead of at quiescence, and in half of the runs the held readers stay open over Writer.Close and are read once more after it returned; a third of the runs disable the query optimisations. distinct = distinct release sequences; non-trivial = a background step was interleaved between two client operations",
+			rule:   "one simulated run per seed (three in four on the file-system directory, one in four on the in-memory directory; in one run of four every fifth batch is a bulk batch of 32-40 documents under an id space of its own, each replacing all documents of the one before): 1-3 client actors hold up to three Readers of different ages open while batches, in-memory merges, file merges, persist swaps, clean-ups (unlinks) and writer Close are scheduled between their reads; the first full read of a reader (count, match-all with stored fields, lookup by id, sorted top-N over document values, aggregations, dictionary scan, phrase/boolean/conjunction/disjunction/range/prefix queries, scored nested booleans, and 6-11 queries generated per run from all public query types, with scores) is its baseline, checked against the abstract index at acquisition; right after acquisition, while the reader is still the writer's current root, the same reads are repeated twice in rotated order and must agree (answers must not depend on search history); every later read, again in another order, must be identical; in one run of four the writer is closed at an arbitrary moment (while merges and persists are in progress) instead of at quiescence, and in half of the runs the held readers stay open over Writer.Close and are read once more after it returned; a third of the runs disable the query optimisations. distinct = distinct release sequences; non-trivial = a background step was interleaved between two client operations",
 			assume: commonAssume,
-			probes: []string{"reader-held-across-unlink-of-other-files", "remove-refused-while-reader-open", "reader-held-across-merge", "reader-reread", "file-merge", "in-memory-merge", "held-reader-read-after-writer-close", "close-while-background-work-in-progress"}}
+			probes: []string{"reader-held-across-unlink-of-other-files", "remove-refused-while-reader-open", "reader-held-across-merge", "reader-reread", "file-merge", "in-memory-merge", "held-reader-read-after-writer-close", "close-while-background-work-in-progress", "bulk-rewrite-of-whole-segment"}}
 	case "C05":
 		return &checkDef{property: "C05", level: "exploration",
 			budget: map[string]tierCfg{"quick": {4000, 75}, "thorough": {200000, 1500}},
